@@ -71,6 +71,14 @@ def expand_tx(spec, pos):
             wit.append([_stream(sd, "w%d.%d" % (i, j), _u32(sd, "wl%d.%d" % (i, j)) % 80) for j in range(cnt)])
         if not any(wit):
             wit[0] = [_stream(sd, "w", 1 + slen % 70)]
+    if slen >= 106:
+        # what real blocks contain since inscriptions: a witness item / an output script well above 10 000 bytes (consensus
+        # limits executed scripts, not what a transaction may carry)
+        big = 10001 + _u32(sd, "big") % 9000
+        if wit is not None:
+            wit[0] = wit[0] + [_stream(sd, "bigw", big)]
+        elif outs:
+            outs[0] = (outs[0][0], _stream(sd, "bigs", big))
     return dict(version=[1, 2, _u32(sd, "ver")][_u32(sd, "vs") % 3], ins=ins, outs=outs,
                 lock_time=[0, _u32(sd, "lt")][_u32(sd, "lts") % 2], witnesses=wit)
 
